@@ -493,7 +493,7 @@ class Chain(Sub):
 
     def cases(self, tier, unit):
         for n in range(1, 81):      # the interpreter's recursion limit is reached at about 120 nested evaluations
-            for kind in ('cell', 'var', 'fn'):
+            for kind in ('cell', 'var', 'fn', 'scoped'):
                 yield [n, kind]
 
     def check(self, env, case):
@@ -507,6 +507,47 @@ class Chain(Sub):
             p = env.new_parser()
             counts = {}
             second = []
+
+            if kind == 'scoped':
+                # the SAME name at every level: a listener that answers "rate" by evaluating, one scope further out, a
+                # formula that mentions "rate" again (scoped definitions, a ledger row built on the previous row)
+                level = {'d': 0}
+
+                def scoped(name, setter):
+                    if name != 'rate':
+                        return
+                    level['d'] += 1
+                    d = level['d']
+                    try:
+                        counts[d] = counts.get(d, 0) + 1
+                        r = p.parse(const_text if d >= n else 'rate' + step)
+                    finally:
+                        level['d'] -= 1
+                    setter(env.dec({'$err': r['error']}) if r['error'] is not None else r['result'])
+                if want is None:
+                    continue
+                p.on('callVariable', scoped)
+                p.on('callVariable', lambda name, s: second.append(level['d'] + 1) if name == 'rate' else None)
+                env.evals += n
+                try:
+                    r = env.out(p.parse('rate' + step))
+                except Exception as e:
+                    r = ['x', type(e).__name__]
+                w2 = want
+                if isinstance(want, int) and not isinstance(want, bool):
+                    w2 = want + 1
+                elif isinstance(want, str) and not want.startswith('#'):
+                    w2 = want + 'x'
+                exp = ['e', w2] if isinstance(w2, str) and w2.startswith('#') else ['v', w2]
+                if r != exp:
+                    out.append(fail('the name rate resolved %d scopes deep by a listener that evaluates a formula mentioning rate again on '
+                                    'the same parser (innermost = %s): %r, expected %r' % (n, const_text, r, exp), exp, r))
+                    break
+                if sorted(counts.items()) != [(i, 1) for i in range(1, n + 1)] or sorted(second) != list(range(1, n + 1)):
+                    out.append(fail('the name rate resolved %d scopes deep: resolutions per level %r..., second listener saw %d of %d' % (
+                        n, sorted(counts.items())[:3], len(second), n), n, len(second)))
+                    break
+                continue
 
             def formula(i):
                 if i == n:
